@@ -84,11 +84,17 @@ impl ImplState {
 
     /// completed search of `b` to depth `d` on a FRESH searcher that uses the current keys
     pub fn fresh_search(&mut self, b: &Board, d: u8) -> (i32, Option<crate::moves::Move>, u64) {
+        let r = self.fresh_search_nodes(b, d);
+        (r.0, r.1, r.2)
+    }
+
+    /// ... and the number of nodes it took (the model must take exactly as many)
+    pub fn fresh_search_nodes(&mut self, b: &Board, d: u8) -> (i32, Option<crate::moves::Move>, u64, u64) {
         let (pk, w, ck, ek) = self.searcher.verif_zobrist().verif_keys();
         let mut s = crate::search::Searcher::new();
         s.verif_set_zobrist(ZobristTable::verif_from_keys(pk, w, ck, ek));
         let (score, mv) = s.find_best_move(b, d, None);
-        (score, mv, s.verif_deeper_hits.get())
+        (score, mv, s.verif_deeper_hits.get(), s.verif_timer().nodes())
     }
 
     pub fn apply(&mut self, line: &str) -> String {
@@ -152,6 +158,18 @@ impl ImplState {
                 Some(b) => sorted_moves(&self.uci.verif_searcher().verif_quiescence_move_set(&b)),
                 None => "bad-op".into(),
             },
+            // qstress <board> <depth> <node budget>: a search on the SAME searcher whose quiescence selection `qset` observes,
+            // cut off after <node budget> nodes (typically deep inside quiescence); no answer is compared
+            "qstress" if t.len() == 4 => match (parse_board(t[1]), t[2].parse::<u8>(), t[3].parse::<u64>()) {
+                (Some(b), Ok(d), Ok(n)) => {
+                    let s = self.uci.verif_searcher();
+                    s.verif_set_node_limit(Some(n));
+                    s.find_best_move(&b, d, Some(std::time::Duration::from_secs(86400)));
+                    s.verif_set_node_limit(None);
+                    "ok".into()
+                }
+                _ => "bad-op".into(),
+            },
             "play" if t.len() == 3 => match (parse_board(t[1]), parse_mv(t[2])) {
                 (Some(b), Some(m)) => board_text(&b.clone_with_move(&m)),
                 _ => "bad-op".into(),
@@ -166,6 +184,7 @@ impl ImplState {
                 Some(b) => self.evaluator.evaluate(&b).to_string(),
                 None => "bad-op".into(),
             },
+            "eval.judge" if t.len() == 3 => "ok".into(),
             // score, score of the side-flipped board, score of the mirrored board
             "eval.rel" if t.len() == 2 => match parse_board(t[1]) {
                 Some(b) => {
@@ -249,7 +268,7 @@ impl ImplState {
             },
             // s.fresh <board> <depth>: completed search on a FRESH searcher with the current keys
             "s.fresh" if t.len() == 3 => match (parse_board(t[1]), t[2].parse::<u8>()) {
-                (Some(b), Ok(d)) => { let (score, mv, deeper) = self.fresh_search(&b, d); format!("{} {} deeper={}", score, opt_mv_text(&mv), deeper) }
+                (Some(b), Ok(d)) => { let (score, mv, deeper, nodes) = self.fresh_search_nodes(&b, d); format!("{} {} deeper={} nodes={}", score, opt_mv_text(&mv), deeper, nodes) }
                 _ => "bad-op".into(),
             },
             "s.qval" if t.len() == 2 => match parse_board(t[1]) {
